@@ -7,6 +7,7 @@ import GV.Spec.Tables
 import GV.Proofs.Decoder
 import GV.Proofs.Vli
 import GV.Proofs.DecodeSlice
+import GV.Proofs.SizeVerdict
 namespace GV.Props.C03
 open GV
 
@@ -42,6 +43,72 @@ theorem early_reject (cfg : DecodeCfg) (d : Decoder) (b : UInt8) (rl : Nat) (res
   simp only [stepByte, hs, stepLength, hv]
   rw [if_neg hbig]
   exact ⟨rfl, rfl, rfl⟩
+
+/-- The other half of the size verdict: a completed Remaining Length whose packet fits the maximum in force is
+    accepted and the decoder waits for exactly `rl` body bytes.  With `early_reject`: the verdict at the header is a
+    function of the total size `1 + prefix length + rl` alone — the prefix bytes are counted from the scratch buffer,
+    which holds all of them wherever the reads ended (`chunk_invariant`). -/
+theorem within_limit_accepted (cfg : DecodeCfg) (d : Decoder) (b : UInt8) (rl : Nat) (rest : Bytes)
+    (hs : d.state = .readLength) (hv : decodeVli (d.scratch ++ [b]) = .value rl rest)
+    (hfit : rl + 1 + (d.scratch ++ [b]).length ≤ cfg.limit) (hrl : rl ≠ 0) :
+    stepByte cfg d b = ({ d with state := .readBody, scratch := [], remaining := rl }, [], none) := by
+  simp only [stepByte, hs, stepLength, hv]
+  rw [if_pos hfit, if_neg hrl]
+
+/-- Non-vacuity (the instance a seeded change got wrong): a PUBLISH of 203 bytes (`30 C8 01 ...`, Remaining Length
+    200) under a maximum of 202 is rejected at the third byte wherever the reads end; under 203 it is accepted. -/
+example : (feedChunksB { version := .v5, maxSize := 202 } {} [[0x30, 0xC8], [0x01]]).err = some .decodingFailure ∧
+    (feedChunksB { version := .v5, maxSize := 202 } {} [[0x30], [0xC8], [0x01]]).err = some .decodingFailure ∧
+    (feedChunksB { version := .v5, maxSize := 202 } {} [[0x30, 0xC8, 0x01]]).err = some .decodingFailure ∧
+    (feedChunksB { version := .v5, maxSize := 203 } {} [[0x30, 0xC8], [0x01]]).err = none := by
+  decide
+
+/-- **Size verdict on the stream (reject).**  A fixed header whose Remaining Length `c ++ [last]` (continuation
+    bytes, then the final byte) announces a packet larger than the maximum in force fails the decoder at the byte that
+    completes the length — no packet, nothing of the body consumed — and by `chunk_invariant` this holds wherever
+    the reads end, inside the prefix included. -/
+theorem oversize_rejected_on_stream (cfg : DecodeCfg) (fb last : UInt8) (c rest : Bytes) (rl : Nat) (tl : Bytes)
+    (hc : AllCont c) (hl : c.length ≤ 3) (hv : decodeVli (c ++ [last]) = .value rl tl)
+    (hbig : cfg.limit < rl + 1 + (c.length + 1)) :
+    (feed cfg {} (fb :: (c ++ last :: rest))).err = some .decodingFailure ∧
+    (feed cfg {} (fb :: (c ++ last :: rest))).packets = [] ∧
+    (feed cfg {} (fb :: (c ++ last :: rest))).dec.state = .terminal := by
+  let d1 : Decoder := { state := .readLength, firstByte := fb, scratch := [] }
+  have h0 : feed cfg {} (fb :: (c ++ last :: rest)) = feed cfg d1 (c ++ last :: rest) := by
+    simp [feed, stepByte, d1]
+  have h1 := feed_cont cfg c d1 (last :: rest) rfl (by simpa [d1] using hc) (by simp [d1]; omega)
+  have h2 := early_reject cfg { d1 with scratch := d1.scratch ++ c } last rl tl rfl (by simpa [d1] using hv)
+    (by simp [d1]; omega)
+  rw [h0, h1]
+  simp only [feed]
+  rcases hst : stepByte cfg { d1 with scratch := d1.scratch ++ c } last with ⟨d', ps, e⟩
+  rw [hst] at h2
+  simp only at h2
+  obtain ⟨he, hs, hp⟩ := h2
+  subst he
+  simp [hs, hp]
+
+/-- **Size verdict on the stream (accept).**  The same header within the limit leaves the decoder waiting for exactly
+    `rl` body bytes. -/
+theorem fitting_header_accepted_on_stream (cfg : DecodeCfg) (fb last : UInt8) (c : Bytes) (rl : Nat) (tl : Bytes)
+    (hc : AllCont c) (hl : c.length ≤ 3) (hv : decodeVli (c ++ [last]) = .value rl tl)
+    (hfit : rl + 1 + (c.length + 1) ≤ cfg.limit) (hrl : rl ≠ 0) :
+    feed cfg {} (fb :: (c ++ [last])) =
+      { dec := { state := .readBody, firstByte := fb, scratch := [], remaining := rl }, packets := [], err := none } := by
+  let d1 : Decoder := { state := .readLength, firstByte := fb, scratch := [] }
+  have h0 : feed cfg {} (fb :: (c ++ [last])) = feed cfg d1 (c ++ [last]) := by
+    simp [feed, stepByte, d1]
+  have h1 := feed_cont cfg c d1 [last] rfl (by simpa [d1] using hc) (by simp [d1]; omega)
+  have h2 := within_limit_accepted cfg { d1 with scratch := d1.scratch ++ c } last rl tl rfl (by simpa [d1] using hv)
+    (by simp [d1]; omega) hrl
+  rw [h0, h1]
+  simp only [feed, h2]
+  simp [d1]
+
+/-- non-vacuity: the prefix `C8 01` (Remaining Length 200) meets the hypotheses -/
+example : AllCont [0xC8] ∧ decodeVli ([0xC8] ++ [0x01]) = .value 200 [] := by
+  refine ⟨?_, by decide⟩
+  intro b hb; simp at hb; subst hb; decide
 
 /-- The reason-code tables the decoder accepts are exactly the standard's, packet by packet. -/
 theorem tables_match_standard :
